@@ -94,10 +94,15 @@ Recyclable(S) == {a \in Pool : \E l \in On(S, a) : ~Held(l)}
 Fresh(T, m, a, ak, names) ==
     {T \cup {Lease(m, a, FALSE, ak, h)} : h \in {x \in names : x = "" \/ \A o \in T : o.host # x}}
 Allocs(S, m, ak, hs, gen) ==
-    LET g(a) == IF gen THEN {GenName(a), AltName(a)} ELSE {} IN
-    UNION {Fresh(S, m, a, ak, hs \cup g(a)) : a \in FreeAddrs(S)}
+    \* derived names for address a in table T: the derived name, or -- only
+    \* when somebody else has that -- the alternative one
+    LET g(a, T) == IF ~gen THEN {}
+                   ELSE IF \E o \in T : o.host = GenName(a) THEN {AltName(a)} ELSE {GenName(a)}
+    IN
+    UNION {Fresh(S, m, a, ak, hs \cup g(a, S)) : a \in FreeAddrs(S)}
     \cup
-    UNION {Fresh(S \ On(S, a), m, a, ak, hs \cup g(a) \cup {l.host : l \in On(S, a)}) : a \in Recyclable(S)}
+    UNION {Fresh(S \ On(S, a), m, a, ak, hs \cup g(a, S \ On(S, a)) \cup {l.host : l \in On(S, a)})
+           : a \in Recyclable(S)}
 
 \* ----------------------------------------------------------------- DISCOVER
 \* A client that has a lease (reservation, acknowledged, offered or expired)
@@ -122,7 +127,8 @@ HostChoices(S, l, h) ==
     LET want  == IF h = "" \/ h \in BadHosts THEN GenName(l.ip) ELSE h
         cands == {want, l.host, GenName(l.ip)} \ {""}
         ok    == {x \in cands : \A o \in S \ {l} : o.host # x}
-    IN  IF ok = {} THEN {"", AltName(l.ip)} ELSE ok
+        alt   == {x \in {AltName(l.ip)} : \A o \in S \ {l} : o.host # x}
+    IN  IF ok = {} THEN {""} \cup alt ELSE ok
 
 \* The three kinds (selecting, init-reboot, renew) differ in how the packet
 \* names the address; the table treats them alike: acknowledged iff the
@@ -142,16 +148,20 @@ RequestOut(S, m, kind, a, h) ==
 \* The client found its dynamic address in use: the lease is dropped.  The
 \* statement says nothing more; the server may in the same step hand the
 \* client another lease (any admissible address, offered or acknowledged,
-\* with the old host name, the name derived from the new address, or none).
+\* with the old host name -- unless that was derived from the declined
+\* address --, a name derived from the new address, or none).
 \* Reservations are not affected.
 DeclineOut(S, m, a) ==
     LET mine == {l \in Of(S, m) : l.ip = a /\ ~l.st} IN
     IF mine = {} THEN {Outc(S, AnyR)}
     ELSE LET l  == CHOOSE x \in mine : TRUE
              S1 == S \ {l}
+             \* a name derived from the declined address describes that
+             \* address and does not move to another one
+             keep == {""} \cup ({l.host} \ {GenName(a), AltName(a)})
          IN  {Outc(S1, AnyR)}
-             \cup {Outc(T, AnyR) : T \in Allocs(S1, m, TRUE, {"", l.host}, TRUE)}
-             \cup {Outc(T, AnyR) : T \in Allocs(S1, m, FALSE, {"", l.host}, TRUE)}
+             \cup {Outc(T, AnyR) : T \in Allocs(S1, m, TRUE, keep, TRUE)}
+             \cup {Outc(T, AnyR) : T \in Allocs(S1, m, FALSE, keep, TRUE)}
 
 \* ------------------------------------------------------------------ RELEASE
 ReleaseOut(S, m, a) ==
